@@ -26,6 +26,7 @@ var repoDir = "/repo"
 
 // outDir is where evidence/ and replay/ are written (verifDir unless VERIF_REPO is set).
 var outDir = ""
+
 const modPath = "github.com/drand/drand/v2"
 
 var verifDir = "/verif"
